@@ -85,6 +85,11 @@ class Runner(object):
     def run(self, op):
         line, obs_line, obs = self.world.run(op)
         mline = None
+        if self.model is not None and not self.unmodelled and any(
+                not isinstance(x, (str, bytes, bytearray)) for h in (op.get('headers') or []) for x in (h[0], h[1])):
+            # a header name or value that is not a string at all: outside what the model represents
+            self.unmodelled = True
+            self.unmodelled_idx = len(self.ops)
         if self.model is not None and not self.unmodelled:
             mline = self.model.send(line)
             if 'UNMODELLED' in mline:
